@@ -13,11 +13,43 @@ RULE = ('every initialiser x shapes of rank 1-5 (rank >= 2 for the fan-based one
         'nonlinearities x negative slopes x both dtypes x seeds; the (low, high | mean, std, size) handed to the global NumPy '
         'generator is captured by wrapping np.random.uniform/normal and must equal the model request; the tensor must hold what '
         'the unwrapped generator yields from the same state with the MODEL parameters, with identity, shape, dtype and '
-        'requires_grad unchanged. Linear / Conv1d / Conv2d constructors likewise. Non-trivial: fan_in != fan_out and gain != 1.')
+        'requires_grad unchanged. Linear / Conv1d / Conv2d constructors likewise. MEMORY LAYOUT of the tensor handed in: C-contiguous, '
+        'Fortran order, full transpose, two axes swapped, an axis moved, every-second-element slices (with offset), reversed axes, a window '
+        'into a larger buffer, read-only broadcast-expanded views, results of Tensor.transpose / Tensor.movedim - every initialiser x '
+        'every layout in every run (the previous contents must be gone afterwards). GRAD-MODE CONTEXT around the call: plain, no_grad, '
+        'retain_grads, both nested either way, nested twice, after a block was left normally or by an exception (also inside an '
+        'enclosing block) - for the fillers and for the layer constructors; explicit reset_parameters() on a layer whose weight / bias / '
+        'both were frozen before (freeze() or the flag), in any context: one draw per parameter with the documented bounds, flags kept. '
+        'Non-trivial: fan_in != fan_out and gain != 1.')
 EXHAUSTIVE = {'quick': False, 'thorough': False}
 ASSUMPTIONS = ['np.random.uniform / normal produce the distributions their arguments name (not modelled)']
 TRUSTED_BASE = ['harness/props/c15.py']
 NLS = ['linear', 'conv1d', 'conv2d', 'sigmoid', 'tanh', 'relu', 'leaky_relu', 'selu']
+# how the array behind the tensor is laid out in memory (the fillers may not assume anything about it)
+LAYOUTS = ['c', 'F', 'T', 'swap', 'move', 'step', 'rev', 'sub', 'bcast', 'op-transpose', 'op-movedim']
+# grad-mode context around the call: `a>b` = b nested in a; `after-exit:x` / `after-raise:x` = the block x was entered and left (normally / by an
+# exception) just before, the call itself happens outside of it (but inside whatever encloses it)
+CTXS = ['plain', 'no_grad', 'retain_grads', 'no_grad>retain_grads', 'retain_grads>no_grad', 'no_grad>no_grad', 'after-exit:no_grad',
+        'after-raise:no_grad', 'no_grad>after-raise:no_grad', 'no_grad>after-exit:retain_grads', 'retain_grads>after-raise:no_grad>no_grad',
+        'after-raise:no_grad>retain_grads']
+FREEZES = ['none', 'all', 'weight', 'bias', 'flags']        # what is frozen before an explicit reset_parameters()
+FILLERS = ['uniform_', 'normal_', 'constant_', 'ones_', 'zeros_', 'xavier_uniform_', 'xavier_normal_', 'kaiming_uniform_', 'kaiming_normal_']
+
+
+def filler_args(rng, fn):
+    if fn == 'uniform_': return [rng.dyadic(-2, 0), rng.dyadic(0, 2)]
+    if fn == 'normal_': return [rng.dyadic(-1, 1), rng.randint(1, 16) / 8]
+    if fn == 'constant_': return [rng.dyadic(-2, 2)]
+    if fn in ('ones_', 'zeros_'): return []
+    if fn in ('xavier_uniform_', 'xavier_normal_'): return [rng.pick([1.0, 2.0, 0.5, math.sqrt(2.0), 5.0 / 3])]
+    return [rng.pick([0, 0.01, 0.2, 1.0, 0.5]), rng.pick(['fan_in', 'fan_out']), rng.pick(NLS)]
+
+
+def layer_case(rng, fn=None):
+    fn = fn or rng.pick(['Linear', 'Conv1d', 'Conv2d'])
+    sh = {'Linear': [rng.randint(1, 6), rng.randint(1, 6)], 'Conv1d': [rng.randint(1, 4), rng.randint(1, 4), rng.randint(1, 4)],
+          'Conv2d': [rng.randint(1, 4), rng.randint(1, 4), rng.randint(1, 3), rng.randint(1, 3)]}[fn]
+    return {'fn': fn, 'shape': sh, 'bias': rng.chance(.7), 'seed': rng.randrange(2 ** 31), 'dt': 'f32', 'rg': True, 'args': []}
 
 
 def rshape(rng, rmin=2):
@@ -35,6 +67,8 @@ def cases(rng, tier):
         g = rng.pick([1.0, 2.0, 0.5, math.sqrt(2.0), 5.0 / 3])
         a = rng.pick([0, 0.01, 0.2, 1.0, 0.5])
         base = {'shape': sh, 'dt': dt, 'rg': rg, 'seed': seed}
+        if rng.chance(.6): base.update(layout=rng.pick(LAYOUTS), lp=rng.randrange(64))
+        if rng.chance(.4): base['ctx'] = rng.pick(CTXS)
         out.append(dict(base, fn='uniform_', args=[rng.dyadic(-2, 0), rng.dyadic(0, 2)]))
         out.append(dict(base, fn='normal_', args=[rng.dyadic(-1, 1), rng.randint(1, 16) / 8]))
         out.append(dict(base, fn='constant_', args=[rng.dyadic(-2, 2)]))
@@ -67,12 +101,27 @@ def cases(rng, tier):
             out.append({'fn': 'Conv1d', 'shape': [rng.randint(1, 3), rng.randint(30, 100), rng.randint(3, 7)], 'bias': rng.chance(.7), 'seed': seed, 'dt': 'f32', 'rg': True, 'args': [], 'spell': sp})
         out.append({'fn': 'Conv2d', 'shape': [rng.randint(1, 3), rng.randint(20, 70), rng.randint(2, 5), rng.randint(2, 5)], 'bias': rng.chance(.7), 'seed': seed, 'dt': 'f32', 'rg': True, 'args': [], 'spell': sp})
         out.append({'fn': 'Linear', 'shape': [rng.randint(1, 3), rng.randint(100, 127)], 'bias': True, 'seed': seed, 'dt': 'f32', 'rg': True, 'args': [], 'spell': sp})
+    # every initialiser on every memory layout (both dtypes, shapes with all sizes > 1 so that the layout is never accidentally contiguous)
+    for fn in FILLERS:
+        for lay in LAYOUTS:
+            for _ in range(1 if tier == 'quick' else 12):
+                sh = [rng.randint(2, 4) for _ in range(rng.randint(2, 4) if tier == 'quick' else rng.randint(1 if fn in FILLERS[:5] else 2, 5))]
+                out.append({'shape': sh, 'dt': rng.pick(['f32', 'f64']), 'rg': rng.chance(.5), 'seed': rng.randrange(2 ** 31), 'fn': fn, 'args': filler_args(rng, fn),
+                            'layout': lay, 'lp': rng.randrange(64), 'ctx': rng.pick(CTXS) if rng.chance(.3) else 'plain'})
+    # every layer constructor in every grad-mode context; then an explicit reset_parameters() with parameters frozen before, in any context
+    for fn in ['Linear', 'Conv1d', 'Conv2d']:
+        for ctx in CTXS:
+            for _ in range(1 if tier == 'quick' else 8):
+                out.append(dict(layer_case(rng, fn), ctx=ctx))
+        for fr in FREEZES:
+            for _ in range(2 if tier == 'quick' else 12):
+                out.append(dict(layer_case(rng, fn), ctx=rng.pick(CTXS), reset={'freeze': fr, 'ctx': rng.pick(CTXS), 'times': rng.pick([1, 1, 2])}))
     for nl in NLS:
         for p in [None, 0, 0.01, 0.2, 1.0]:
             out.append({'fn': 'gain', 'nl': nl, 'p': p})
     for c in out:
         c['lines'] = [line_of(c)]
-        c['desc'] = c['lines'][0] + f" dtype={c.get('dt')} rg={c.get('rg')}"
+        c['desc'] = c['lines'][0] + f" dtype={c.get('dt')} rg={c.get('rg')}" + ''.join(f' {k}={c[k]}' for k in ('layout', 'lp', 'ctx', 'reset') if k in c)
     return out
 
 
@@ -103,6 +152,76 @@ def _capture():
     return cap, (ou, on)
 
 
+class _Boom(Exception):
+    pass
+
+
+def _boom():
+    raise _Boom()
+
+
+def _in_ctx(sg, ctx, f):
+    """run f() in the grad-mode context named by ctx (see CTXS)"""
+    if ctx in (None, '', 'plain'):
+        return f()
+    head, _, rest = ctx.partition('>')
+    if head.startswith('after-raise:') or head.startswith('after-exit:'):
+        # the whole remainder names the block that is entered and left first: `after-raise:a>b` leaves b (inside a) by an exception that
+        # propagates through a as well
+        how, inner = ctx.split(':', 1)
+        if how == 'after-raise':
+            try:
+                _in_ctx(sg, inner, _boom)
+            except _Boom:
+                pass
+        else:
+            _in_ctx(sg, inner, lambda: None)
+        return f()
+    with {'no_grad': sg.no_grad, 'retain_grads': sg.retain_grads}[head]():
+        return _in_ctx(sg, rest, f)
+
+
+def _make_tensor(sg, c, dt):
+    """the tensor handed to the initialiser: shape c['shape'], previous contents 7.0, memory layout c['layout'] (parameter c['lp'])"""
+    sh = list(c['shape']); lay = c.get('layout', 'c'); p = c.get('lp', 0); n = len(sh)
+    full = lambda shape, **kw: np.full(shape, 7.0, dtype=dt, **kw)
+    i, j = p % n, (p // n) % n
+    if lay in ('op-transpose', 'op-movedim'):
+        bs = list(sh)
+        if lay == 'op-transpose':
+            bs[i], bs[j] = bs[j], bs[i]
+            return sg.Tensor(full(bs), requires_grad=c['rg']).transpose(i, j)
+        bs = list(np.moveaxis(np.empty(sh, dtype=np.int8), j, i).shape)
+        return sg.Tensor(full(bs), requires_grad=c['rg']).movedim(i, j)
+    if lay == 'c': a = full(sh)
+    elif lay == 'F': a = full(sh, order='F')
+    elif lay == 'T': a = full(sh[::-1]).T
+    elif lay == 'swap':
+        bs = list(sh); bs[i], bs[j] = bs[j], bs[i]
+        a = np.swapaxes(full(bs), i, j)
+    elif lay == 'move':
+        a = np.moveaxis(full(np.moveaxis(np.empty(sh, dtype=np.int8), j, i).shape), i, j)
+    elif lay in ('step', 'rev', 'sub'):
+        idx = [slice(None)] * n
+        bs = list(sh)
+        if lay == 'step':
+            off = (p // n) % 2
+            bs[i] = 2 * sh[i] + off; idx[i] = slice(off, None, 2)
+            if n > 1 and p % 3 == 0: idx[j] = slice(None, None, -1) if j != i else idx[j]
+        elif lay == 'rev':
+            idx[i] = slice(None, None, -1)
+        else:
+            bs = [v + 2 for v in sh]; idx = [slice(1, 1 + v) for v in sh]
+        a = full(bs)[tuple(idx)]
+    elif lay == 'bcast':
+        bs = list(sh); bs[i] = 1
+        a = np.broadcast_to(full(bs), sh)
+    else:
+        raise KeyError(lay)
+    assert list(a.shape) == sh, (lay, a.shape, sh)
+    return sg.Tensor(a, requires_grad=c['rg'])
+
+
 def _run(c):
     sg = common.impl()
     from synapgrad import nn
@@ -118,22 +237,49 @@ def _run(c):
             if c.get('spell'):
                 I = {'u8': np.uint8, 'i8': np.int8, 'i16': np.int16}[c['spell']]
                 s = [I(v) for v in s]
-            if fn == 'Linear': layer = nn.Linear(s[1], s[0], bias=c['bias'])
-            elif fn == 'Conv1d': layer = nn.Conv1d(s[1], s[0], s[2], bias=c['bias'])
-            else: layer = nn.Conv2d(s[1], s[0], (s[2], s[3]), bias=c['bias'])
+            def build():
+                if fn == 'Linear': return nn.Linear(s[1], s[0], bias=c['bias'])
+                if fn == 'Conv1d': return nn.Conv1d(s[1], s[0], s[2], bias=c['bias'])
+                return nn.Conv2d(s[1], s[0], (s[2], s[3]), bias=c['bias'])
+            gm = []
+            def build_():
+                gm.append(bool(common.tmod().gradient__)); return build()
+            layer = _in_ctx(sg, c.get('ctx'), build_)
             tensors = [layer.weight] + ([layer.bias] if c['bias'] else [])
-            ok = list(layer.weight.shape) == c['shape'] and all(t.requires_grad and t.dtype == np.float32 for t in tensors)
-            return {'cap': list(cap), 'tensors': [t.data.copy() for t in tensors], 'ok': ok}
-        t = sg.Tensor(np.full(c['shape'], 7.0, dtype=dt), requires_grad=c['rg'])
+            # (whether parameters created while grad mode is off require grad is not this property's business: only asserted in plain mode)
+            ok = list(layer.weight.shape) == c['shape'] and all(t.dtype == np.float32 for t in tensors) and (not gm[0] or all(t.requires_grad for t in tensors))
+            res = {'cap': list(cap), 'tensors': [t.data.copy() for t in tensors], 'ok': ok, 'grad_mode': gm[0], 'seed': c['seed']}
+            rs = c.get('reset')
+            if rs and res['ok'] and len(res['cap']) == len(tensors):
+                # explicit reset_parameters() after (some of) the parameters were frozen: fresh seed, the draws of the LAST call are kept
+                if rs['freeze'] == 'all': layer.freeze()
+                elif rs['freeze'] == 'flags':
+                    for t in tensors: t.requires_grad = False
+                elif rs['freeze'] == 'weight': layer.weight.requires_grad = False
+                elif rs['freeze'] == 'bias' and c['bias']: layer.bias.requires_grad = False
+                ids, flags = [id(t) for t in tensors], [t.requires_grad for t in tensors]
+                for k in range(rs['times']):
+                    del cap[:]
+                    np.random.seed(c['seed'] + 1 + k)
+                    _in_ctx(sg, rs['ctx'], layer.reset_parameters)
+                after = [layer.weight] + ([layer.bias] if c['bias'] else [])
+                ok = [id(t) for t in after] == ids and [t.requires_grad for t in after] == flags and list(layer.weight.shape) == c['shape'] \
+                    and all(t.dtype == np.float32 for t in after)
+                res = {'cap': list(cap), 'tensors': [t.data.copy() for t in after], 'ok': ok, 'grad_mode': gm[0], 'seed': c['seed'] + rs['times'], 'frozen': flags.count(False)}
+            return res
+        t = _make_tensor(sg, c, dt)
+        contiguous = bool(t.data.flags['C_CONTIGUOUS'])
         # numeric arguments also arrive as NumPy float64 scalars (a subclass of float with the same precision), e.g. gain=np.sqrt(2.0)
         args = [np.float64(a) if isinstance(a, float) and c['seed'] % 2 else a for a in c['args']]
-        if c['seed'] % 3 == 0:        # the usual idiom: re-initialise inside no_grad (requires_grad must survive)
+        if 'ctx' in c:
+            r = _in_ctx(sg, c['ctx'], lambda: getattr(nn.init, fn)(t, *args))
+        elif c['seed'] % 3 == 0:        # the usual idiom: re-initialise inside no_grad (requires_grad must survive)
             with sg.no_grad():
                 r = getattr(nn.init, fn)(t, *args)
         else:
             r = getattr(nn.init, fn)(t, *args)
         ok = (r is t) and list(t.shape) == c['shape'] and t.dtype == dt and t.requires_grad == c['rg']
-        return {'cap': list(cap), 'tensors': [t.data.copy()], 'ok': ok}
+        return {'cap': list(cap), 'tensors': [t.data.copy()], 'ok': ok, 'contiguous': contiguous}
     finally:
         np.random.uniform, np.random.normal = orig
 
@@ -180,7 +326,7 @@ def compare(c, mo, io):
     if r['cap'] and mo[0] not in ('rejected',):
         kind, p1, p2 = mo[0].split(' ')
         p1, p2 = bitsf(p1), bitsf(p2)
-        np.random.seed(c['seed'])
+        np.random.seed(r.get('seed', c['seed']))
         for (k, a, b, size), data in zip(r['cap'], r['tensors']):
             if size != tuple(data.shape):
                 diffs.append((c['lines'][0], f'draw of shape {tuple(data.shape)}', f'size={size}')); break
@@ -204,6 +350,13 @@ def distribution(cases):
     for c in cases:
         k = c['fn'] + (f"/rank{len(c['shape'])}" if 'shape' in c else '')
         d[k] = d.get(k, 0) + 1
+        r = c.get('_r') if isinstance(c.get('_r'), dict) else {}
+        ks = []
+        if 'layout' in c: ks += ['layout:' + c['layout'], 'filler on a tensor whose data is ' + ('C-contiguous' if r.get('contiguous', True) else 'NOT C-contiguous') + '/' + c['dt']]
+        if 'ctx' in c: ks.append(('layer built in ctx:' if c['fn'] in ('Linear', 'Conv1d', 'Conv2d') else 'filler in ctx:') + c['ctx'])
+        if 'grad_mode' in r: ks.append('layer constructed with grad mode ' + ('on' if r['grad_mode'] else 'OFF'))
+        if 'reset' in c: ks += ['explicit reset_parameters(), frozen before: ' + c['reset']['freeze'], 'explicit reset in ctx:' + c['reset']['ctx']]
+        for k in ks: d[k] = d.get(k, 0) + 1
     return d
 
 
@@ -261,12 +414,16 @@ def oracle(c):
     for k, p1, p2, size in r['cap']:
         if k != want[0] or abs(p1 - want[1]) > 1e-12 * (1 + abs(want[1])) or abs(p2 - want[2]) > 1e-12 * (1 + abs(want[2])):
             return {'key': dict(key, cls='parameters'), 'case': cc, 'what': f'generator called with {k}({p1}, {p2}); documented: {want}'}
+    if len(r['cap']) != len(r['tensors']):
+        return {'key': dict(key, cls='draw-count'), 'case': cc, 'what': f"{len(r['cap'])} draws from the global generator for {len(r['tensors'])} parameter tensors"
+                + (f" (grad mode at construction: {r.get('grad_mode')}, frozen before the reset: {r.get('frozen')})" if 'grad_mode' in r else '')}
     # and the data really are that draw
-    np.random.seed(c['seed'])
+    np.random.seed(r.get('seed', c['seed']))
     for (k, a, b, size), data in zip(r['cap'], r['tensors']):
         ref = (np.random.uniform(want[1], want[2], data.shape) if k == 'uniform' else np.random.normal(want[1], want[2], data.shape)).astype(data.dtype)
-        if not np.allclose(ref, data, rtol=1e-6, atol=1e-9):
-            return {'key': dict(key, cls='data'), 'case': cc, 'what': 'tensor data is not the draw with the documented parameters'}
+        if tuple(data.shape) != tuple(ref.shape) or not np.allclose(ref, data, rtol=1e-6, atol=1e-9):
+            return {'key': dict(key, cls='data'), 'case': cc, 'what': 'tensor data is not the draw with the documented parameters'
+                    + (f" (memory layout {c['layout']}, C-contiguous: {r.get('contiguous')}; first values {data.ravel()[:3].tolist()}, drawn {ref.ravel()[:3].tolist()})" if 'layout' in c else '')}
     return None
 
 
